@@ -314,6 +314,106 @@ func c08DirectCalls() []*c08call {
 		lc.want = lc.direct()
 		out = append(out, lc)
 	}
+	out = append(out, c08Wave10Calls()...)
+	return out
+}
+
+type c08CreateDTO struct {
+	Name string
+	Age  int
+}
+type c08UpdateDTO struct {
+	Age   int
+	Name  string
+	Extra string
+}
+type c08DeepC struct {
+	TheInnermostFieldOfTheDocument string `zog:"the_innermost_field_of_the_document"`
+}
+type c08DeepB struct {
+	AnotherQuiteLongFieldName c08DeepC `zog:"another_quite_long_field_name"`
+}
+type c08DeepA struct {
+	AVeryLongFieldNameAtTheTop c08DeepB `zog:"a_very_long_field_name_at_the_top"`
+	Short                      string   `zog:"s"`
+}
+
+// c08Wave10Calls: shared schemas whose per-call decisions must not be remembered on the schema object: one Ptr(Struct) schema
+// allocating nil destinations of two different struct types, one Time schema with a custom layout reading different texts, one
+// nested struct whose issue paths are longer than any inline buffer next to calls with short paths. A recovered panic is
+// rendered as a result (and a solo result that is a panic is reported by RunCase).
+func c08Wave10Calls() []*c08call {
+	var out []*c08call
+	guard := func(f func() string) (res string) {
+		defer func() {
+			if r := recover(); r != nil {
+				res = fmt.Sprint("PANIC: ", r)
+			}
+		}()
+		return f()
+	}
+	psch := z.Ptr(z.Struct(z.Schema{"name": z.String().Min(3), "age": z.Int().GT(0)}))
+	for _, which := range []string{"create", "update", "create-bad", "update-bad"} {
+		which := which
+		pc := &c08call{mode: ref.Parse, desc: "one shared Ptr(Struct{name, age}) schema parsed into a nil **" + which + " destination (two destination struct types take turns)"}
+		pc.direct = func(opts ...z.ExecOption) string {
+			return guard(func() string {
+				data := map[string]any{"name": "alice", "age": 30}
+				if strings.HasSuffix(which, "-bad") {
+					data = map[string]any{"name": "al", "age": 0}
+				}
+				if strings.HasPrefix(which, "create") {
+					var d *c08CreateDTO
+					m := psch.Parse(data, &d, opts...)
+					all, _ := obs.CanonMap(m)
+					return fmt.Sprintf("%+v issues=%v", d, obs.Multiset(all, func(ci obs.CI) string { return ci.Full() }))
+				}
+				var d *c08UpdateDTO
+				m := psch.Parse(data, &d, opts...)
+				all, _ := obs.CanonMap(m)
+				return fmt.Sprintf("%+v issues=%v", d, obs.Multiset(all, func(ci obs.CI) string { return ci.Full() }))
+			})
+		}
+		pc.want = pc.direct()
+		out = append(out, pc)
+	}
+	tsch := z.Struct(z.Schema{"day": z.Time(z.Time.Format("2006-01-02")).After(time.Date(2000, 1, 1, 0, 0, 0, 0, time.UTC))})
+	for _, text := range []string{"2024-01-31", "2023-12-25", "1999-07-04", "2024-02-30", "2031-05-06"} {
+		text := text
+		tc := &c08call{mode: ref.Parse, desc: "one shared Time(Format(2006-01-02)) schema reading the text " + text}
+		tc.direct = func(opts ...z.ExecOption) string {
+			return guard(func() string {
+				var d struct{ Day time.Time }
+				m := tsch.Parse(map[string]any{"day": text}, &d, opts...)
+				all, _ := obs.CanonMap(m)
+				return d.Day.UTC().Format(time.RFC3339) + " " + obs.Multiset(all, func(ci obs.CI) string { return ci.Full() })
+			})
+		}
+		tc.want = tc.direct()
+		out = append(out, tc)
+	}
+	deep := z.Struct(z.Schema{"aVeryLongFieldNameAtTheTop": z.Struct(z.Schema{"anotherQuiteLongFieldName": z.Struct(z.Schema{"theInnermostFieldOfTheDocument": z.String().Min(5)})}), "short": z.String().Min(5)})
+	for _, leaf := range []string{"ab", "abcdefg", "x"} {
+		leaf := leaf
+		dc := &c08call{mode: ref.Parse, desc: "one shared three-level struct schema whose issue path is 90 bytes long, leaf " + leaf}
+		dc.direct = func(opts ...z.ExecOption) string {
+			return guard(func() string {
+				var d c08DeepA
+				m := deep.Parse(map[string]any{"s": leaf, "a_very_long_field_name_at_the_top": map[string]any{"another_quite_long_field_name": map[string]any{"the_innermost_field_of_the_document": leaf}}}, &d, opts...)
+				all, _ := obs.CanonMap(m)
+				keys := make([]string, 0, len(m))
+				for k := range m {
+					if k != "$first" {
+						keys = append(keys, k)
+					}
+				}
+				sort.Strings(keys)
+				return strings.Join(keys, ",") + " " + obs.Multiset(all, func(ci obs.CI) string { return ci.Full() })
+			})
+		}
+		dc.want = dc.direct()
+		out = append(out, dc)
+	}
 	return out
 }
 
@@ -476,6 +576,14 @@ func (c08) RunCase(c *core.Ctx) {
 		}
 	}
 	calls = append(calls, c08DirectCalls()...)
+	for _, cl := range calls {
+		if cl.direct != nil && strings.HasPrefix(cl.want, "PANIC: ") {
+			// the solo results are computed one after the other on the shared schema objects: a panic there is a call whose outcome
+			// depends on what the schema object remembered from an earlier call
+			c.Violation("call-on-shared-schema-panics-after-another-call|"+cl.mode.String(), map[string]any{"call": cl.desc, "result_alone": cl.want})
+			return
+		}
+	}
 	type diverge struct {
 		call *c08call
 		got  string
